@@ -20,7 +20,7 @@ let lbl_name = function
   | CloseFail _ -> "CloseFail" | QueueFail _ -> "QueueFail"
 let xlbl_name = function
   | XSubmit _ -> "XSubmit" | XFetch _ -> "XFetch" | XBuildRound _ -> "XBuildRound" | XClean -> "XClean"
-  | XNoConn -> "XNoConn" | XSendExit -> "XSendExit" | XWake -> "XWake" | XCore l -> lbl_name l
+  | XNoConn -> "XNoConn" | XSendExit -> "XSendExit" | XIdleExit -> "XIdleExit" | XWake -> "XWake" | XCore l -> lbl_name l
 
 exception Reject of string * string (* oracle, reason *)
 
@@ -122,17 +122,25 @@ let blackbox (s : sc) =
   !fails
 
 (* ---------------------------------------------------------------- white-box acceptor (one store) *)
-let whitebox (scid : string) (label : string) (cfg_limit : int) (evl : string list list) =
+let whitebox (scid : string) (label : string) (cfg_limit : int) (nh : int) (evl : string list list) =
   let evs = Array.of_list evl in
   let n_ev = Array.length evs in
   (* look-ahead tables: in which ROUND a caller is built, what a caller returns *)
   let built_at = Hashtbl.create 64 and ret_kind = Hashtbl.create 64 in
+  (* several connections: one core instance with a lane = (connection, forwarded host) per stream; the connection a request
+     is sent on is only decided by getClientAndSend, the acceptor looks it up in the caller's Send event *)
+  let conn_of = Hashtbl.create 64 and subp = Hashtbl.create 64 in
+  let lane conn h = ios h + nh * (max 0 (ios conn)) in
   let maxid = ref 0 and round_idx = ref [] in
   Array.iteri (fun i e -> match e with
     | "ROUND" :: _ :: b :: _ ->
         round_idx := i :: !round_idx;
         List.iter (fun (id, c, _) -> maxid := max !maxid id; if not (Hashtbl.mem built_at c) then Hashtbl.replace built_at c i) (parse_triples (after_eq b))
-    | "SB" :: _ :: _ :: _ :: pairs :: _ -> List.iter (fun (id, _) -> maxid := max !maxid id) (parse_pairs pairs)
+    | "SB" :: conn :: _ :: _ :: pairs :: _ ->
+        List.iter (fun (id, c) -> maxid := max !maxid id; if not (Hashtbl.mem conn_of c) then Hashtbl.replace conn_of c (max 0 (ios conn))) (parse_pairs pairs)
+    | "SUB" :: c :: h :: p :: _ :: _ :: mode :: _ ->
+        let a = try ignore (Str.search_forward (Str.regexp_string "async") mode 0); true with Not_found -> false in
+        Hashtbl.replace subp (ios c) (ios h, max 0 (ios p), a)
     | "RET" :: c :: kind :: _ -> if not (Hashtbl.mem ret_kind (ios c)) then Hashtbl.replace ret_kind (ios c) kind
     | _ -> ()) evs;
   (* calls that the watchdog had to give up on: their final "ctx" return is the harness's own cancellation *)
@@ -152,6 +160,17 @@ let whitebox (scid : string) (label : string) (cfg_limit : int) (evl : string li
   let entry c = ent (st ()) (nat c) in
   let in_inb c = memb (nat c) (inb !xs) in
   let is_async c = asy !xs (nat c) in
+  (* the entry is created (and, for an asynchronous call, batchConn.closed re-checked) when the request is enqueued, which
+     is some time after the call started: the model's XSubmit is replayed at the first evidence of the entry *)
+  let ensure c =
+    match e_st (entry c) with
+    | Fresh ->
+        (match Hashtbl.find_opt subp c with
+         | Some (h, p, a) ->
+             let ln = h + nh * (try Hashtbl.find conn_of c with Not_found -> 0) in
+             apply "exactly_once" (XSubmit (nat c, nat ln, nat p, a))
+         | None -> raise (Reject ("exactly_once", Printf.sprintf "caller %d appears without having started a call" c)))
+    | _ -> () in
   let pending = Hashtbl.create 4 in
   let close_pending = ref false and closed_seen = ref false in
   let do_close () = if !close_pending then (close_pending := false; capply "exactly_once" Close) in
@@ -168,11 +187,12 @@ let whitebox (scid : string) (label : string) (cfg_limit : int) (evl : string li
   let abort_of_kind = function "ctx" -> Some ECtx | "timeout" -> Some ETimeout | "closed" -> Some EClosed | _ -> None in
   let do_abort c k =
     if k = EClosed then do_close ();
+    ensure c;
     if k = EClosed && is_async c then begin
       (* an asynchronous call reports "closed" through the sender's re-check / the drain of the channel / the exit of
          a recv loop, never through a select on batchConn.closed *)
       (match e_st (entry c) with
-       | Queued -> capply "exactly_once" (QueueFail (nat c))
+       | Queued -> (match xstep !xs XSendExit with Some x' -> xs := x'; incr steps; bump "step:XSendExit" 1 | None -> bump "async_closed_unexplained" 1)
        | Stored _ -> capply "exactly_once" (CloseFail (nat c))
        | _ -> ());
       if e_comp (entry c) <> [] && e_ret (entry c) = None then capply "exactly_once" (Return (nat c))
@@ -186,11 +206,9 @@ let whitebox (scid : string) (label : string) (cfg_limit : int) (evl : string li
     | Some (Resp _), `Fail -> raise (Reject ("exactly_once", Printf.sprintf "caller %d returned a failure but its channel held a response" c))
     | Some (Err _), `Ok _ -> raise (Reject ("own_response", Printf.sprintf "caller %d returned a response but its entry had been failed" c))
     | None, _ -> raise (Reject ("exactly_once", "no return value")) in
-  let fetch c = if is_queued (e_st (entry c)) && not (in_inb c) then apply "builder" (XFetch (nat c)) in
+  let fetch c = ensure c; if is_queued (e_st (entry c)) && not (in_inb c) then apply "builder" (XFetch (nat c)) in
   let run_event e = match e with
-    | "SUB" :: c :: h :: p :: _ :: _ :: mode :: _ ->
-        let a = try ignore (Str.search_forward (Str.regexp_string "async") mode 0); true with Not_found -> false in
-        apply "exactly_once" (XSubmit (nat (ios c), nat (ios h), nat (max 0 (ios p)), a))
+    | "SUB" :: _ -> () (* see `ensure` *)
     | "ROUND" :: r :: b :: l :: _ ->
         bump "rounds" 1;
         let built = List.sort compare (parse_triples (after_eq b)) and left = parse_triples (after_eq l) in
@@ -228,7 +246,7 @@ let whitebox (scid : string) (label : string) (cfg_limit : int) (evl : string li
           (match e_st (entry c) with
            | Built j when int_of_nat j = i -> ()
            | _ -> raise (Reject ("ids_fresh", Printf.sprintf "caller %d was given id %d, the model allocates the next consecutive id (next_id=%d after the round)" c i (int_of_nat (next_id (st ()))))));
-          if int_of_nat (e_host (entry c)) <> h then raise (Reject ("own_response", Printf.sprintf "request of caller %d put in the bucket of host %d" c h))) built;
+          if int_of_nat (e_host (entry c)) mod nh <> h then raise (Reject ("own_response", Printf.sprintf "request of caller %d put in the bucket of host %d" c h))) built;
         if int_of_nat (next_id (st ())) <> ios r then
           raise (Reject ("ids_fresh", Printf.sprintf "idAlloc is %s after the round, the model has %d" r (int_of_nat (next_id (st ())))));
         (* callers that gave up after buildWithLimit had selected them *)
@@ -239,7 +257,7 @@ let whitebox (scid : string) (label : string) (cfg_limit : int) (evl : string li
           (match e_st (entry c) with
            | Built j when int_of_nat j = i -> ()
            | _ -> raise (Reject ("ids_fresh", Printf.sprintf "request of caller %d sent under id %d which no builder round allocated to it" c i)));
-          if int_of_nat (e_host (entry c)) <> ios h then raise (Reject ("own_response", Printf.sprintf "request of caller %d sent on the stream of host %s" c h));
+          if int_of_nat (e_host (entry c)) <> lane conn h then raise (Reject ("own_response", Printf.sprintf "request of caller %d sent on the stream of host %s of connection %s" c h conn));
           max_stored := max !max_stored i;
           capply "ids_fresh" (Store (nat c))) ps;
         Hashtbl.replace batches (conn, h, inc) ps
@@ -247,8 +265,8 @@ let whitebox (scid : string) (label : string) (cfg_limit : int) (evl : string li
         let ps = try Hashtbl.find batches (conn, h, inc) with Not_found -> [] in
         List.iter (fun (i, c) -> Hashtbl.replace failed_sent i true;
                     match e_st (entry c) with Stored _ -> capply "exactly_once" (FailSent (nat c)) | _ -> ()) ps
-    | "RV" :: _ :: h :: _ :: pairs :: _ ->
-        let h = ios h in
+    | "RV" :: conn :: h :: _ :: pairs :: _ ->
+        let h = lane conn h in
         (try List.iter (fun (i, p) ->
           let i' = map_id i in
           (match lookup (nat i') (tab (st ())) with
@@ -263,9 +281,9 @@ let whitebox (scid : string) (label : string) (cfg_limit : int) (evl : string li
            | LLoaded _ when p <= -10 -> capply "exactly_once" (RecvPanic (nat h)); bump "recv_panics_expected" 1; raise Exit (* the rest of the batch is lost *)
            | LLoaded _ -> capply "exactly_once" (RecvFinish (nat h))
            | _ -> bump "outdated" 1)) (parse_pairs pairs) with Exit -> ())
-    | "RD" :: _ :: h :: _ :: snap :: _ when snap <> "?" && not !closed_seen ->
+    | "RD" :: conn :: h :: _ :: snap :: _ when snap <> "?" && not !closed_seen ->
         (* the recv loop asks for the next message: everything it dispatched has left the table *)
-        let h = ios h in
+        let h = lane conn h in
         let real = snap_ids snap and model = model_ids_of_host h in
         bump "table_checks" 1;
         List.iter (fun i -> if not (List.mem i real) then
@@ -275,15 +293,15 @@ let whitebox (scid : string) (label : string) (cfg_limit : int) (evl : string li
           | None -> false (* allocated in a round whose dump is not logged yet *) in
         List.iter (fun i -> if not (List.mem i model) && retired i && not (Hashtbl.mem failed_sent i) then
           raise (Reject ("table", Printf.sprintf "id %d of stream %d is still in `batched` although the model has retired it (dispatched / failed): [%s] vs model [%s]" i h (ids_str real) (ids_str model)))) real
-    | "RE" :: _ :: h :: _ ->
-        let h = ios h in
+    | "RE" :: conn :: h :: _ ->
+        let h = lane conn h in
         if failpanic && npending h > 0 then
           (* the previous failure of this stream never reached the re-creation: failPendingRequests panicked *)
           capply "fail_pending" (FailPanic (nat h))
         else Hashtbl.replace pending h (npending h + 1)
-    | "NSF" :: _ :: h :: _ -> flush_fail (ios h)
-    | "NS" :: _ :: h :: _ :: snap :: _ ->
-        let h = ios h in
+    | "NSF" :: conn :: h :: _ -> flush_fail (lane conn h)
+    | "NS" :: conn :: h :: _ :: snap :: _ ->
+        let h = lane conn h in
         if npending h > 0 then begin
           flush_fail h;
           let real = snap_ids snap in
@@ -298,10 +316,12 @@ let whitebox (scid : string) (label : string) (cfg_limit : int) (evl : string li
         if Hashtbl.mem pre_aborted c then ()
         else (match kind with
          | "ok" ->
+             ensure c;
              if e_comp (entry c) = [] then raise (Reject ("own_response", Printf.sprintf "caller %d returned a response but no dispatch to its entry was observed" c));
              expect_ret c (`Ok (ios p))
          | "ctx" | "timeout" | "closed" ->
              let k = match abort_of_kind kind with Some k -> k | None -> ECtx in
+             if Hashtbl.mem built_at c then ensure c;
              (match e_st (entry c), (try Some (Hashtbl.find built_at c) with Not_found -> None) with
               | Queued, Some at when at > !cur && not (e_canceled (entry c))
                                      && not (List.exists (fun r -> r > !cur && r < at) !round_idx) ->
@@ -310,6 +330,7 @@ let whitebox (scid : string) (label : string) (cfg_limit : int) (evl : string li
                   Hashtbl.replace deferred c (at, k)
               | _ -> do_abort c k)
          | "fail:init" ->
+             ensure c;
              if e_comp (entry c) = [] then capply "exactly_once" (InitFail (nat c));
              expect_ret c `Fail
          | "fail:noconn" ->
@@ -317,6 +338,7 @@ let whitebox (scid : string) (label : string) (cfg_limit : int) (evl : string li
              expect_ret c `Fail
          | "fail:idle" -> ()
          | k when has_prefix "fail" k ->
+             ensure c;
              if e_comp (entry c) = [] then begin
                (match e_st (entry c) with
                 | Stored _ -> flush_fail (int_of_nat (e_host (entry c)))
@@ -350,7 +372,7 @@ let whitebox (scid : string) (label : string) (cfg_limit : int) (evl : string li
           let model = List.sort compare (List.map (fun (i, _) -> int_of_nat i) (tab (st ()))) in
           if real <> model then
             raise (Reject ("table", Printf.sprintf "at quiescence the table holds ids [%s], the model [%s]" (ids_str real) (ids_str model)));
-          let sentv = if String.length sent > 5 then ios (after_eq sent) else -999 in
+          let sentv = if String.length sent > 5 then List.fold_left (fun a x -> a + ios x) 0 (String.split_on_char ',' (after_eq sent)) else -999 in
           if sentv <> List.length real then
             raise (Reject ("table", Printf.sprintf "at quiescence sent=%d but the table holds %d entries" sentv (List.length real)))
         end
@@ -419,13 +441,13 @@ let () =
     let bf = blackbox s in
     Printf.printf "BLACKBOX\t%s\t%d\n" s.id bf;
     let newpool = List.exists (fun e -> match e with "CLOSE" :: "addr" :: _ -> true | _ -> false) s.evs in
-    (* the acceptor models ONE batchCommandsClient per store: several connections, a pool re-created after CloseAddr, the
-       non-batch path and the async-calls-racing-with-Close class (an entry failed by the sender's re-check may still be
+    (* the acceptor replays one pool per store, with one lane per (connection, forwarded host); a pool re-created after
+       CloseAddr / idle recycling, the non-batch path, the collapse wrapper and the async-calls-racing-with-Close class (an entry failed by the sender's re-check may still be
        sent by a send loop that has not exited yet) are black-box only *)
-    if conns_of s.spec = 1 && not newpool && not (nobatch_of s.spec) && cls <> "asyncclose" && cls <> "collapse" then begin
+    if not newpool && not (nobatch_of s.spec) && cls <> "asyncclose" && cls <> "collapse" && cls <> "idle" then begin
       let np = pools_of s.spec in
       for k = 0 to np - 1 do
-        ignore (whitebox s.id (if np > 1 then Printf.sprintf "@%d" k else "") (spec_int "limit" s.spec 0) (if np > 1 then events_of_pool s k else s.evs))
+        ignore (whitebox s.id (if np > 1 then Printf.sprintf "@%d" k else "") (spec_int "limit" s.spec 0) (max 1 (spec_int "nhosts" s.spec 1)) (if np > 1 then events_of_pool s k else s.evs))
       done
     end else bump "blackbox_only" 1;
     let kinds = String.concat "" (List.map (fun e -> match e with
